@@ -473,6 +473,19 @@ def h_einsum(ip, st, args, kw, node):
     return h_generic('einsum')(ip, st, args, kw, node)
 
 
+def h_where(ip, st, args, kw, node):
+    """np.where(cond) with one argument is np.nonzero(cond)."""
+    if len(args) == 1 and not kw:
+        return app('nonzero', P(args[0]))
+    return h_generic('where')(ip, st, args, kw, node)
+
+
+def h_flatnonzero(ip, st, args, kw, node):
+    return nf.index(app('nonzero', app('m:ravel', P(args[0]))), Poly.const(0))
+
+
+HANDLERS['numpy.where'] = h_where
+HANDLERS['numpy.flatnonzero'] = h_flatnonzero
 HANDLERS['numpy.einsum'] = h_einsum
 # overrides of the generic entries above
 HANDLERS['zip'] = h_zip
